@@ -779,7 +779,11 @@ fn abnormal_violation(ctx: &Ctx, plan: &Plan, exe: &std::path::Path, st: &mut St
 }
 
 /// Runs [lo, hi) to completion with as many worker restarts as needed.
-fn run_unit(ctx: &Ctx, plan: &Plan, exe: &std::path::Path, lo: u64, hi: u64, peak: &mut u64) -> UnitResult {
+/// A unit that keeps running into abnormal ends (a corpus entry whose mutants hang or abort, each
+/// costing a worker restart) hands the upper half of what is left back to the shared queue through
+/// `spill`, so that such a stretch is shared by all threads instead of serialising the run.
+fn run_unit(ctx: &Ctx, plan: &Plan, exe: &std::path::Path, lo: u64, hi: u64, peak: &mut u64, spill: &dyn Fn(u64, u64)) -> UnitResult {
+    let mut hi = hi;
     let mut st = Stats::new();
     let mut skip: BTreeSet<u64> = BTreeSet::new();
     let mut suspects = vec![];
@@ -825,6 +829,13 @@ fn run_unit(ctx: &Ctx, plan: &Plan, exe: &std::path::Path, lo: u64, hi: u64, pea
                 if cur < hi {
                     restarts += 1; // voluntary restart after MAX_PARKED refusals
                 }
+            }
+        }
+        if restarts >= 2 && hi - cur.min(hi) > 64 {
+            let mid = (cur + (hi - cur) / 2).div_ceil(32) * 32;
+            if mid > cur && mid < hi {
+                spill(mid, hi);
+                hi = mid;
             }
         }
         if restarts > 500_000 {
@@ -1031,7 +1042,18 @@ pub fn run(ctx: &Ctx) -> ! {
         }
     }
     let n_units = units.len() as u64;
-    let next = AtomicU64::new(0);
+    // strided order: every region of the index space (= every format) is started early, so that a format
+    // whose mutants need many worker restarts overlaps with the bulk instead of forming the tail
+    {
+        let n = units.len();
+        let stride = [61usize, 67, 71, 73].into_iter().find(|s| n % s != 0).unwrap_or(1);
+        let src = units.clone();
+        for (i, u) in units.iter_mut().enumerate() {
+            *u = src[(i * stride) % n];
+        }
+    }
+    // shared queue of [lo, hi) ranges + number of threads currently inside a unit (they may spill)
+    let queue = Mutex::new((units.iter().copied().collect::<std::collections::VecDeque<(u64, u64)>>(), 0usize));
     let merged = Mutex::new((Stats::new(), 0u64, Vec::<u64>::new()));
     let capped = AtomicU64::new(0);
     std::thread::scope(|s| {
@@ -1041,18 +1063,34 @@ pub fn run(ctx: &Ctx) -> ! {
                 let mut peak = 0u64;
                 let mut suspects = vec![];
                 loop {
-                    let u = next.fetch_add(1, Ordering::Relaxed);
-                    if u >= n_units {
-                        break;
-                    }
-                    if ctx.out_of_time() {
-                        capped.fetch_add(1, Ordering::Relaxed);
+                    let job = {
+                        let mut q = queue.lock().unwrap();
+                        match q.0.pop_front() {
+                            Some(j) => {
+                                q.1 += 1;
+                                Some(j)
+                            }
+                            None if q.1 == 0 => break,
+                            None => None,
+                        }
+                    };
+                    let Some((lo, hi)) = job else {
+                        std::thread::sleep(Duration::from_millis(5));
                         continue;
+                    };
+                    if ctx.out_of_time() {
+                        capped.fetch_add(hi - lo, Ordering::Relaxed);
+                    } else {
+                        let spill = |a: u64, b: u64| queue.lock().unwrap().0.push_front((a, b));
+                        let t0 = std::time::Instant::now();
+                        let r = run_unit(ctx, &plan, &exe, lo, hi, &mut peak, &spill);
+                        if std::env::var_os("VK_TIMING").is_some() {
+                            eprintln!("timing: unit [{lo},{hi}) {} took {:.1}s, finished at {:.1}s", plan.jobs[plan.locate(lo).0].sub, t0.elapsed().as_secs_f64(), ctx.start.elapsed().as_secs_f64());
+                        }
+                        local.merge(r.st);
+                        suspects.extend(r.suspects);
                     }
-                    let (lo, hi) = units[u as usize];
-                    let r = run_unit(ctx, &plan, &exe, lo, hi, &mut peak);
-                    local.merge(r.st);
-                    suspects.extend(r.suspects);
+                    queue.lock().unwrap().1 -= 1;
                 }
                 let mut g = merged.lock().unwrap();
                 g.0.merge(local);
@@ -1062,11 +1100,14 @@ pub fn run(ctx: &Ctx) -> ! {
         }
     });
     let (mut st, mut peak, suspects) = merged.into_inner().unwrap();
+    if std::env::var_os("VK_TIMING").is_some() {
+        eprintln!("timing: sweep done after {:.1}s, {} suspects", ctx.start.elapsed().as_secs_f64(), suspects.len());
+    }
     st.count("cpu_limit_short_hits", suspects.len() as u64);
     st.merge(confirm_suspects(ctx, &plan, &exe, suspects, &mut peak));
     let c = capped.load(Ordering::Relaxed);
     if c > 0 {
-        st.cap(format!("time budget hit: {c} of {n_units} work units (up to {unit} evaluations each) not run"));
+        st.cap(format!("time budget hit: {c} of {} evaluations ({n_units} work units) not run", plan.total));
     }
     if let Some(pref) = &only {
         st.cap(format!("restricted by --only {pref}"));
